@@ -107,6 +107,7 @@ type observation struct {
 	extra     int  // requests after the successful PLAY (keep-alive)
 	extraBad  bool
 	panicked  bool
+	idleTask  int // idle-close tasks posted for the pulled stream (expected: 1 unless the route says keepalive)
 	notes     []string
 }
 
@@ -286,6 +287,17 @@ func runScenario(s *scenario, path string) *observation {
 	}
 	// success: the stream must appear under the requested path
 	o.reg = waitFor(settle, func() bool { return media.Get(path) == stream })
+	var task *media.VerifIdleTask
+	for _, t := range media.VerifIdleTasks() {
+		if t.Stream == stream {
+			o.idleTask++
+			task = t
+			if t.ClosedStatus != media.StreamNoConsumer || t.D != 5*time.Minute {
+				o.notes = append(o.notes, fmt.Sprintf("idle task with status %d period %v", t.ClosedStatus, t.D))
+				o.idleTask += 10
+			}
+		}
+	}
 	cons := &testConsumer{}
 	cid := stream.StartConsume(cons, media.RTPPacket, "c20")
 	_ = cid
@@ -323,6 +335,17 @@ func runScenario(s *scenario, path string) *observation {
 	case "trunc": // an interleaved frame header promising more bytes than ever arrive, then EOF
 		cc.write([]byte{'$', 0, 0x10, 0x00, 1, 2, 3})
 		cc.kill(false)
+	case "idle": // nobody consumes any more and the idle task fires: the stream is closed, the pull must end
+		stream.StopConsume(cid)
+		if task != nil {
+			func() {
+				defer func() { recover() }()
+				task.Tick(0)
+			}()
+		} else {
+			stream.Close() // (keepalive route: no task; same effect for the pull as an API stop)
+		}
+		cc.write(rtpPacket(0, seq, 0))
 	case "stop": // the stream is closed on the server side (API stop): the pull must notice with the next packet
 		stream.Close()
 		cc.write(rtpPacket(0, seq, 0))
@@ -562,7 +585,7 @@ func genPlay(r *Rng) []string {
 			ev = append(ev, "ka", fmt.Sprintf("p%d", r.Intn(4)))
 		}
 	}
-	terms := []string{"eof", "rst", "sil", "gar", "trunc", "stop", "replace", "eof", "rst"}
+	terms := []string{"eof", "rst", "sil", "gar", "trunc", "stop", "replace", "idle", "eof", "rst"}
 	return append(ev, terms[r.Intn(len(terms))])
 }
 
@@ -610,7 +633,7 @@ func systematic() []*scenario {
 			}
 		}
 	}
-	for _, term := range []string{"eof", "rst", "sil", "gar", "trunc", "stop", "replace"} {
+	for _, term := range []string{"eof", "rst", "sil", "gar", "trunc", "stop", "replace", "idle"} {
 		for _, keep := range []bool{true, false} {
 			out = append(out, &scenario{user: true, listen: true, urlPath: true, keep: keep, sdp: "va", script: []string{"u-dg", "ok", "ok", "ok+s", "ok+s", "ok+s"}, play: []string{"p0", "p1", "p2", "p3", "opt", "ka", "p0", term}})
 			out = append(out, &scenario{user: false, listen: true, urlPath: true, keep: keep, sdp: "v", script: nil, play: []string{term}})
@@ -680,7 +703,7 @@ func implKeyOf(o *observation) string {
 
 // failing: does the driver's answer disagree with the observation, or does the spec reject it?
 func failing(o *observation, m map[string]string) bool {
-	return implKeyOf(o) != m["model"] || m["verdict"] != "ok" || o.extraBad || strings.HasPrefix(o.out, "status-")
+	return o.idleTask > 1 || implKeyOf(o) != m["model"] || m["verdict"] != "ok" || o.extraBad || strings.HasPrefix(o.out, "status-")
 }
 
 // runBatches runs the scenarios idx (indices into scs) in parallel batches; batch-level leak check
@@ -863,6 +886,16 @@ func runC20(c *Ctx) {
 		}
 		if o.extra > 0 {
 			c.Count("keepalive-seen")
+		}
+		if o.out == "stream" {
+			want := 1
+			if s.keep {
+				want = 0
+			}
+			c.Count(fmt.Sprintf("idle-task-posted-%d", o.idleTask))
+			if o.idleTask != want {
+				c.Find(Finding{Kind: "oracle", Class: "idle-close-task-not-as-route-says", Case: caseLine, Impl: fmt.Sprintf("tasks=%d keepalive=%v", o.idleTask, s.keep), Spec: fmt.Sprintf("tasks=%d", want), Detail: strings.Join(o.notes, "; ")})
+			}
 		}
 		if kaExpected(s) && o.out == "stream" && o.extra == 0 {
 			c.Find(Finding{Kind: "oracle", Class: "keepalive-missing", Case: caseLine, Impl: o.String(), Spec: "an OPTIONS keep-alive after the heart-beat interval", Detail: strings.Join(o.notes, "; ")})
